@@ -83,6 +83,23 @@ add("C06", "Hypothesis-generated parameter trees / tau and training histories; s
     "Delays 1-7, <= 100 steps; cadence phase-free except where a phase is documented (DESIGN §11); magnitudes capped at 1e30.",
     "DESIGN.md §5 C06, §11")
 
+add("C14", "Hypothesis-generated tables / transitions / episode lists / transition histories vs numpy float64 textbook references; existential oracle for planning; recorded runs replayed by the reference",
+    "Single-update functions of Q-learning, SARSA, double Q-learning and Dyna-Q, Monte-Carlo episode updates, the Dyna-Q model over "
+    "histories with stochastic successors and planning are compared with independent numpy references (only entry (s,a) of the updated "
+    "table may change, by the documented amount); short recorded runs on a scripted tabular environment are replayed step by step from "
+    "the tables observed through wrapped module-level callables.",
+    "Dyna-Q's real-step update is not required to honour `terminated` (not stated); ties in an argmax accept any maximiser; planning "
+    "searched exhaustively up to 3 steps.",
+    "DESIGN.md §5 C14")
+add("C15", "Model-based testing: Hypothesis-generated (episode length, return) sequences vs a history-level model of the assessment function written from the statement; TD7 runs on an environment whose scripted rewards realise such sequences; atheris campaign in the thorough tier",
+    "assess_performance_and_checkpoint is driven with generated sequences (returns drawn around the running best, window sizes, thresholds, "
+    "reset weights) and compared after every call with a model of conservation, release-at-window-end, checkpoint and cut-short rules and "
+    "the single window switch; train_td7 runs are observed through a snapshot logger: released iterations, checkpoint epochs, checkpoint "
+    "bytes and the returned actor/embedding.",
+    "TD7 runs <= 150 steps, hidden width 4; a threshold already reached at the start demands no switch; total_episodes / continuation "
+    "runs not generated.",
+    "DESIGN.md §5 C15")
+
 NOT_APPLICABLE = {}
 
 
